@@ -281,3 +281,107 @@ def _memory_layout(ctx):
             ctx.ob("C23.R7", site, "the literal's bytes are placed at that address, unmodified", ok, construct="literal-data")
             lab = [n for n in l.body if isinstance(n, ast.Assign) and norm(n.targets[0]) == "self.global_labels[%s]" % tv[0]]
             ctx.ob("C23.R7", site, "the literal's label resolves to that address", bool(lab) and bool(addr) and norm(lab[0].value) == norm(addr[0].targets[0]), construct="literal-label")
+    frame_slots(ctx, "C23.R8")
+
+
+def _paths(stmts, state, fresh):
+    """all straight-line paths through a statement list of assignments and ifs; values are sym.Aff over the inputs
+    (a non-affine right-hand side such as `x % a` becomes a fresh atom).  Returns a list of final states."""
+    from .. import sym
+    states = [dict(state)]
+    for st in stmts:
+        nxt = []
+        for s_ in states:
+            if isinstance(st, (ast.Assign, ast.AugAssign)):
+                tgt = norm(st.targets[0] if isinstance(st, ast.Assign) else st.target)
+                env = {}
+                def val(e):
+                    a = _aff(e, s_)
+                    if a is None:
+                        fresh[0] += 1
+                        return sym.atom("%s#%d" % (" ".join(norm(e).split())[:30], fresh[0]))
+                    return a
+                v = val(st.value)
+                if isinstance(st, ast.AugAssign):
+                    cur = s_.get(tgt, sym.atom(tgt))
+                    v = cur + v if isinstance(st.op, ast.Add) else cur - v if isinstance(st.op, ast.Sub) else None
+                    if v is None:
+                        fresh[0] += 1
+                        v = sym.atom("%s#%d" % (tgt, fresh[0]))
+                n = dict(s_)
+                n[tgt] = v
+                nxt.append(n)
+            elif isinstance(st, ast.If):
+                nxt += _paths(st.body, s_, fresh)
+                nxt += _paths(st.orelse, s_, fresh)
+            elif isinstance(st, (ast.Expr, ast.Pass)):
+                nxt.append(s_)
+            else:
+                return None
+        states = nxt
+        if any(x is None for x in states):
+            return None
+    return states
+
+
+def _aff(e, state):
+    """affine value of e with the current symbolic state substituted for names / self attributes"""
+    from .. import sym
+    if isinstance(e, (ast.Name, ast.Attribute)):
+        k = norm(e)
+        if k in state:
+            return state[k]
+        return sym.atom(k)
+    if isinstance(e, ast.Constant) and isinstance(e.value, int) and not isinstance(e.value, bool):
+        return sym.const(e.value)
+    if isinstance(e, ast.UnaryOp) and isinstance(e.op, ast.USub):
+        v = _aff(e.operand, state)
+        return None if v is None else -v
+    if isinstance(e, ast.BinOp) and isinstance(e.op, (ast.Add, ast.Sub)):
+        a, b = _aff(e.left, state), _aff(e.right, state)
+        if a is None or b is None:
+            return None
+        return a + b if isinstance(e.op, ast.Add) else a - b
+    return None
+
+
+def frame_slots(ctx, rid):
+    """Frame.alloc hands out the stack slots of a function (for wasm: offsets from the frame pointer at the BOTTOM of
+    the frame, which lives in linear memory).  Two slots must not overlap and the frame size that is reserved must
+    cover the last slot: on every path  new stacksize == offset + size  (bottom) /  offset == -new stacksize  (top),
+    and the slot starts at or after the old end."""
+    from .. import sym
+    S = "ppci/arch/stack.py"
+    ctx.rule(rid, "Frame.alloc: on every path the frame grows to exactly the end of the new slot (bottom: stacksize' = offset + size; top: offset = -stacksize' and stacksize' >= stacksize + size), so slots never overlap and the reserved frame covers them", floor=3)
+    fn = ctx.fn(S, "Frame.alloc")
+    site = S + ":Frame.alloc"
+    br = [n for n in fn.body if isinstance(n, ast.If) and "FramePointerLocation.TOP" in norm(n.test)]
+    ctx.need(len(br) == 1 and br[0].orelse, "Frame.alloc: top / bottom branches not found")
+    S0 = sym.atom("self.stacksize")
+    size = sym.atom(fn.args.args[1].arg)
+    for label, stmts in (("top", br[0].body), ("bottom", br[0].orelse)):
+        fresh = [0]
+        finals = _paths(stmts, {}, fresh)
+        if finals is None:
+            ctx.undecided(rid, site, "%s branch is not straight-line assignments and ifs" % label)
+            continue
+        oks, det = [], []
+        for st in finals:
+            off, new = st.get("offset"), st.get("self.stacksize", S0)
+            if off is None:
+                oks.append(False)
+                continue
+            if label == "bottom":
+                oks.append(new - off == size)
+                det.append("stacksize' - offset = %r" % (new - off,))
+            else:
+                oks.append(off + new == sym.const(0))
+                det.append("offset + stacksize' = %r" % (off + new,))
+        ctx.ob(rid, site, "%s frames: %s on every path (%d paths)" % (label, "the frame ends exactly where the new slot ends" if label == "bottom" else "the slot starts at the new (lower) end of the frame", len(finals)),
+               bool(oks) and all(oks), construct="frame-covers-slot:" + label, detail="; ".join(det))
+    # the slot never starts before the old end of the frame (bottom): offset - stacksize is 0 or a padding term that is added to BOTH
+    finals = _paths(br[0].orelse, {}, [0]) or []
+    ok = bool(finals) and all(st.get("offset") is not None and (st["offset"] - S0 == st.get("self.stacksize", S0) - S0 - size) for st in finals)
+    ctx.ob(rid, site, "bottom frames: whatever padding precedes the slot is part of the frame (offset - old size == growth - size)", ok, construct="padding-in-frame")
+    loc = [c for c in ast.walk(fn) if isinstance(c, ast.Call) and norm(c.func) == "StackLocation"]
+    ctx.ob(rid, site, "the location handed out is (offset, size)", len(loc) == 1 and [norm(a) for a in loc[0].args] == ["offset", fn.args.args[1].arg], construct="location")
